@@ -21,6 +21,7 @@ struct Cn {
     states: AtomicU64,
     queries: AtomicU64,
     locates: AtomicU64,
+    forced_scans: AtomicU64,
     inside: AtomicU64,
     outside: AtomicU64,
     on_boundary_queries: AtomicU64,
@@ -138,10 +139,32 @@ fn check_state<K: Kernel<D, Scalar = f64>, const D: usize>(rep: &Report, cn: &Cn
         let qp = Point::new(q);
         let replay = |hint: &str, extra: Value| json!({"D": D, "kernel": kname, "family": family, "state": prov, "vertices": s.verts.iter().map(|v| v.c.to_vec()).collect::<Vec<_>>(), "cells": s.cells.iter().map(|c| c.vi.clone()).collect::<Vec<_>>(), "query": q.to_vec(), "hint": hint, "detail": extra});
         let mut classes: Vec<(String, &str)> = Vec::new();
-        for (hname, hint) in &hints {
+        // every hint, plus - as a deviation of the environment - the walk budget running out at step 1, 2 or 3 (guarded
+        // hook `locate.step_limit`), which sends the call into the brute-force scan that real walks only reach after
+        // 10000 steps or a cycle
+        let mut runs: Vec<(String, Option<CellKey>, u32)> = hints.iter().map(|(n, h)| (n.clone(), *h, 0u32)).collect();
+        for nth in [1u32, 3] {
+            runs.push((format!("scan@{nth}"), hints.first().and_then(|(_, h)| *h), nth));
+        }
+        if let Some((_, h)) = hints.get(1) {
+            runs.push(("scan@2+hint".to_string(), *h, 2));
+        }
+        for (hname, hint, force_scan_at) in &runs {
+            let hname = hname.clone();
+            let hname = &hname;
             cn.locates.fetch_add(1, Ordering::Relaxed);
-            let r = guarded(|| locate(dt.tds(), &kernel, &qp, *hint));
-            let r2 = guarded(|| locate_with_stats(dt.tds(), &kernel, &qp, *hint).map(|(l, _)| l));
+            let run_locate = |stats: bool| {
+                if *force_scan_at > 0 {
+                    delaunay::verif_hooks::arm("locate.step_limit", *force_scan_at, 0);
+                }
+                let r = if stats { guarded(|| locate_with_stats(dt.tds(), &kernel, &qp, *hint).map(|(l, _)| l)) } else { guarded(|| locate(dt.tds(), &kernel, &qp, *hint)) };
+                if *force_scan_at > 0 && delaunay::verif_hooks::disarm() {
+                    cn.forced_scans.fetch_add(1, Ordering::Relaxed);
+                }
+                r
+            };
+            let r = run_locate(false);
+            let r2 = run_locate(true);
             let (res, res2) = match (r, r2) {
                 (Ok(a), Ok(b)) => (a, b),
                 _ => {
@@ -256,7 +279,7 @@ fn main() {
     vcore::exact::self_check();
     let thorough = args.tier == Tier::Thorough;
     let x = usize::from(thorough);
-    let cn = Cn { states: AtomicU64::new(0), queries: AtomicU64::new(0), locates: AtomicU64::new(0), inside: AtomicU64::new(0), outside: AtomicU64::new(0), on_boundary_queries: AtomicU64::new(0), undecidable: AtomicU64::new(0) };
+    let cn = Cn { states: AtomicU64::new(0), queries: AtomicU64::new(0), locates: AtomicU64::new(0), forced_scans: AtomicU64::new(0), inside: AtomicU64::new(0), outside: AtomicU64::new(0), on_boundary_queries: AtomicU64::new(0), undecidable: AtomicU64::new(0) };
     let mut bounds = Vec::new();
     let cap = if thorough { 200 } else { 12 };
     run_family::<2>(&rep, &cn, "G2(3) subsets", &alpha::grid::<2>(3), 4..=5 + 2 * x, if thorough { cap } else { 8 }, true, &mut bounds);
@@ -279,6 +302,7 @@ fn main() {
         "traces_validated_against_impl": cn.locates.load(Ordering::Relaxed),
         "queries": cn.queries.load(Ordering::Relaxed),
         "locate_calls": cn.locates.load(Ordering::Relaxed),
+        "calls_in_which_the_forced_step_limit_fired": cn.forced_scans.load(Ordering::Relaxed),
         "inside_answers": ins,
         "outside_answers": outs,
         "queries_on_faces_or_hull": cn.on_boundary_queries.load(Ordering::Relaxed),
